@@ -38,10 +38,19 @@ namespace pika::threads::detail {
 
         // make sure that the thread has not been suspended and set active again
         // in the meantime
+#if defined(PIKA_VERIF)
+        PIKA_VERIF_POINT(203, get_thread_id_data(thrd),
+            static_cast<std::uint64_t>(previous_state.verif_raw()), 0);
+#endif
         thread_state current_state = get_thread_id_data(thrd)->get_state();
 
         if (current_state.state() == previous_state.state() && current_state != previous_state)
         {
+#if defined(PIKA_VERIF)
+            PIKA_VERIF_POINT(207, get_thread_id_data(thrd),
+                static_cast<std::uint64_t>(previous_state.verif_raw()),
+                static_cast<std::uint64_t>(current_state.verif_raw()));
+#endif
             // NOLINTNEXTLINE(bugprone-branch-clone)
             PIKA_LOG(info,
                 "set_active_state: thread is still active, however it was non-active since the "
@@ -125,6 +134,10 @@ namespace pika::threads::detail {
                         "set state for active thread", priority, execution::thread_schedule_hint{},
                         execution::thread_stacksize::nostack);
 
+#if defined(PIKA_VERIF)
+                    PIKA_VERIF_POINT(208, get_thread_id_data(thrd),
+                        static_cast<std::uint64_t>(previous_state.verif_raw()), 0);
+#endif
                     create_work(get_thread_id_data(thrd)->get_scheduler_base(), data, ec);
 
                     if (&ec != &throws) ec = make_success_code();
@@ -209,6 +222,10 @@ namespace pika::threads::detail {
                 get_thread_state_name(previous_state_val));
 
             // So all what we do here is to set the new state.
+#if defined(PIKA_VERIF)
+            PIKA_VERIF_POINT(201, get_thread_id_data(thrd),
+                static_cast<std::uint64_t>(previous_state.verif_raw()), 0);
+#endif
             if (get_thread_id_data(thrd)->restore_state(new_state, new_state_ex, previous_state))
             {
                 break;
@@ -234,6 +251,10 @@ namespace pika::threads::detail {
 
             auto* thrd_data = get_thread_id_data(thrd);
             auto* scheduler = thrd_data->get_scheduler_base();
+#if defined(PIKA_VERIF)
+            PIKA_VERIF_POINT(
+                202, thrd_data, static_cast<std::uint64_t>(previous_state.verif_raw()), 0);
+#endif
             scheduler->schedule_thread(thrd, schedulehint, false, thrd_data->get_priority());
             // NOTE: Don't care if the hint is a NUMA hint, just want to wake up
             // a thread.
